@@ -12,8 +12,9 @@ FS_CLASSES = ['content', 'size', 'delete', 'retype', 'stray', 'touch', 'stray-lo
               'stray-special', 'stray-manifest-name']
 MAN_CLASSES = ['m-digest', 'm-size', 'm-drop', 'm-ghost', 'm-conflict',
                'm-disjoint-wrong', 'm-unsupported', 'm-chain', 'm-dup-ignore',
-               'm-compatible-dup']
+               'm-compatible-dup', 'm-dup-manifest-entry']
 ODD_CLASSES = ['file-over-dir', 'm-misc-dup', 'm-ignore-file', 'm-entry-for-dir']
+UNREG_CLASSES = ['unreg-valid', 'unreg-stale', 'unreg-invalid', 'unreg-badcompressed']
 
 
 def apply_op(root, op):
@@ -266,6 +267,18 @@ def mutate(rng, root, layout, info, klass):
         rec['path'] = d
         layout['mans'][layout['top']]['entries'].append(
             mtext.file_entry('DATA', d, b'', ['MD5']))
+    elif klass == 'm-dup-manifest-entry':
+        # the same sub-Manifest registered twice (same or other covering Manifest)
+        cands = [(m, e) for m, md in layout['mans'].items()
+                 for e in md['entries'] if e['tag'] == 'MANIFEST'
+                 and e.get('_auto') is not None]
+        if not cands:
+            return None
+        m, e = rng.choice(cands)
+        dup = dict(e, _auto=list(e['_auto']) if rng.random() < 0.6
+                   else [rng.choice(mtext.supported_hashes())])
+        layout['mans'][m]['entries'].append(dup)
+        rec['path'] = mtext.full_path(os.path.dirname(m), e)
     elif klass == 'm-dup-ignore':
         cands = [(m, e) for m, md in layout['mans'].items()
                  for e in md['entries'] if e['tag'] == 'IGNORE']
@@ -277,6 +290,45 @@ def mutate(rng, root, layout, info, klass):
                 layout['mans'][layout['top']]['entries'].append(
                     {'tag': 'IGNORE', 'path': 'dup-ignored'})
         rec['path'] = None
+    elif klass in UNREG_CLASSES:
+        dirs = [d for d in info['dirs'] if d and d not in info['mdirs']
+                and os.path.isdir(os.path.join(root, d))
+                and not os.path.islink(os.path.join(root, d))
+                and not any(mtext.comp_prefix(d, v) for v in info['via_link'])
+                and not any(mtext.comp_prefix(d, ig) for ig in info['ignores'])
+                and not any(c.startswith('.') for c in d.split('/'))]
+        if not dirs:
+            return None
+        d = rng.choice(dirs)
+        fmt = rng.choice(['plain', 'gz', 'bz2', 'lzma', 'xz'])
+        if klass == 'unreg-badcompressed' and fmt == 'plain':
+            fmt = 'gz'
+        name = 'Manifest' if fmt == 'plain' else 'Manifest.' + fmt
+        f = d + '/' + name
+        if os.path.lexists(os.path.join(root, f)):
+            return None
+        rec['path'] = f
+        if klass in ('unreg-valid', 'unreg-stale'):
+            ents = []
+            for x in sorted(os.listdir(os.path.join(root, d))):
+                ap = os.path.join(root, d, x)
+                if os.path.isfile(ap) and not os.path.islink(ap) and not x.startswith('.'):
+                    with open(ap, 'rb') as fh:
+                        data = fh.read()
+                    if klass == 'unreg-stale':
+                        data += b'!'
+                    ents.append(mtext.file_entry('DATA', x, data,
+                                                 [rng.choice(mtext.supported_hashes())]))
+            if rng.random() < 0.3:
+                ents.append({'tag': 'DIST', 'path': 'unreg-dist.tar', 'size': 3,
+                             'sums': {'MD5': 'ab' * 16}})
+            raw = mtext.compress(fmt, mtext.render(ents).encode('utf8'))
+        elif klass == 'unreg-invalid':
+            raw = mtext.compress(fmt, rng.choice([b'this is not a Manifest\n',
+                                                  b'DATA\n', b'DATA x notanumber\n']))
+        else:
+            raw = b'certainly not compressed data \x00\x01\x02'
+        ops.append({'op': 'write', 'p': f, 'c': common.spec_of(raw)})
     elif klass == 'm-chain':
         subs = [m for m, md in layout['mans'].items() if md['parent'] is not None]
         if not subs:
